@@ -2913,12 +2913,14 @@ class ChannelManager:
         channel.on_credits(credit.credits)
 
     def on_channel_closed(self, channel: ClassicChannel | LeCreditBasedChannel) -> None:
-        if classic_connection_channels := self.channels.get(channel.connection.handle):
-            classic_connection_channels.pop(channel.source_cid, None)
-        elif le_connection_channels := self.le_coc_channels.get(
+        if connection_channels := self.channels.get(channel.connection.handle):
+            connection_channels.pop(channel.source_cid, None)
+        if le_connection_channels := self.le_coc_channels.get(
             channel.connection.handle
         ):
-            le_connection_channels.pop(channel.destination_cid, None)
+            # An LE CoC channel is also registered by destination CID
+            if le_connection_channels.get(channel.destination_cid) is channel:
+                del le_connection_channels[channel.destination_cid]
 
     async def create_le_credit_based_channel(
         self,
